@@ -10,7 +10,7 @@
    uok u                   user-level precondition of construct: parts of an AtomicMultiChannelPT are atomic       *)
 From Coq Require Import ZArith QArith Bool List.
 Require Import QV.C03.Model QV.C03.Spec QV.C03.Proofs QV.C03.Proofs2 QV.C03.Proofs3 QV.C03.Proofs4 QV.C03.Proofs5
-               QV.C03.Proofs6 QV.C03.Proofs7.
+               QV.C03.Proofs6 QV.C03.Proofs7 QV.C03.Proofs8 QV.C03.Proofs9.
 
 Theorem C03_construct_wf : forall u, uok u -> wf (construct u).
 Proof. exact construct_wf. Qed.
@@ -29,16 +29,13 @@ Theorem C03_sufficient : forall u values drop, uok u ->
 Proof. exact create_program_sufficient. Qed.
 Print Assumptions C03_sufficient.
 
-(* (b) full statement: assignments that agree on the declared names give the same result *)
-Definition C03_irrelevant_statement : Prop := forall u v1 v2 drop, uok u ->
+(* (b) assignments that agree on the declared names give the same result (extra names, other values for them),
+   also when declared names are absent from both *)
+Theorem C03_irrelevant : forall u v1 v2 drop, uok u ->
   (forall x, In x (pnames (construct u)) -> assoc x v1 = assoc x v2) ->
   create_program u v1 drop = create_program u v2 drop.
-(* (b) proved for assignments that both supply every declared name (extra names, other values for them) *)
-Theorem C03_irrelevant_partial : forall u v1 v2 drop, uok u ->
-  (forall x, In x (pnames (construct u)) -> In x (map fst v1) /\ In x (map fst v2) /\ assoc x v1 = assoc x v2) ->
-  create_program u v1 drop = create_program u v2 drop.
-Proof. exact irrelevant_complete. Qed.
-Print Assumptions C03_irrelevant_partial.
+Proof. exact irrelevant_full. Qed.
+Print Assumptions C03_irrelevant.
 
 (* (c) with every declared name supplied: accepted iff every obligation of every reached node holds (all visible
    constraints true, counts/ranges integral, windows non-negative); a program iff something plays *)
@@ -79,3 +76,47 @@ Print Assumptions C03_violation_justified.
 Theorem C03_missing : forall p s drop b, wf p -> none_missing p (lookup s) drop = false -> run p s drop <> Ok b.
 Proof. exact missing_never_ok. Qed.
 Print Assumptions C03_missing.
+
+(* ---- the specification on the user-level tree u (what check_spec evaluates) = on the constructed tree ---- *)
+(* MappingPT.__init__ (identity completion, merging of nested mappings) preserves the obligations (what is asked and
+   its value, in order) and whether something plays *)
+Theorem C03_construct_spec : forall u, uok u -> forall rho drop,
+  map ob_abs (obs (construct u) rho drop) = map ob_abs (obs u rho drop)
+  /\ plays (construct u) rho drop = plays u rho drop.
+Proof. exact construct_obs. Qed.
+Print Assumptions C03_construct_spec.
+
+Theorem C03_user_refines : forall u values drop, uok u ->
+  refines (create_program u values drop) (verdict u (lookup (SDict values)) drop).
+Proof. exact user_refines. Qed.
+Print Assumptions C03_user_refines.
+
+Theorem C03_user_constraints : forall u values drop b, uok u ->
+  (forall x, In x (pnames (construct u)) -> In x (map fst values)) ->
+  (create_program u values drop = Ok b <->
+   all_hold u (lookup (SDict values)) drop = true /\ b = plays u (lookup (SDict values)) drop).
+Proof. exact user_iff. Qed.
+Print Assumptions C03_user_constraints.
+
+Theorem C03_user_constraints_reject : forall u values drop, uok u ->
+  (forall x, In x (pnames (construct u)) -> In x (map fst values)) ->
+  all_hold u (lookup (SDict values)) drop = false -> some_other u (lookup (SDict values)) drop = false ->
+  create_program u values drop = Err Violated.
+Proof. exact user_violated. Qed.
+Print Assumptions C03_user_constraints_reject.
+
+Theorem C03_user_constraints_sound : forall u values drop b, uok u -> create_program u values drop = Ok b ->
+  (forall c r, In (c, r) (visible u (lookup (SDict values)) drop) -> ceval r c = Some true)
+  /\ none_missing u (lookup (SDict values)) drop = true /\ b = plays u (lookup (SDict values)) drop.
+Proof. exact user_sound. Qed.
+Print Assumptions C03_user_constraints_sound.
+
+Theorem C03_user_violation_justified : forall u values drop, uok u -> create_program u values drop = Err Violated ->
+  exists c r, In (c, r) (visible u (lookup (SDict values)) drop) /\ ceval r c = Some false.
+Proof. exact user_violation_justified. Qed.
+Print Assumptions C03_user_violation_justified.
+
+Theorem C03_user_missing : forall u values drop b, uok u -> none_missing u (lookup (SDict values)) drop = false ->
+  create_program u values drop <> Ok b.
+Proof. exact user_missing. Qed.
+Print Assumptions C03_user_missing.
